@@ -80,7 +80,9 @@ fn fingerprint(name: &str, metas: Vec<(&'static str, MetaType)>) {
     println!("{}_nodocs bytes={}", name, hex(&p.encode()));
     // the registry a consumer keeps after pruning is produced metadata too
     let mut kept = p.clone();
-    let map = kept.retain(|id| id % 3 == 0);
+    // every third entry, and every bit sequence (so that each kind of definition is among the kept ones)
+    let bits: Vec<u32> = p.types.iter().filter(|t| matches!(t.ty.type_def, TypeDef::BitSequence(_))).map(|t| t.id).collect();
+    let map = kept.retain(|id| id % 3 == 0 || bits.contains(&id));
     println!("{}_retained_nodocs kept={} bytes={}", name, map.len(), hex(&kept.encode()));
 }
 
